@@ -389,7 +389,7 @@ fn gen_cases(seed: u64, thorough: bool) -> Vec<String> {
     }
     // the borrowing route: every element type x lengths over every SIZE width
     // x every query length 0..16 x every misalignment 0..7
-    let ref_lens: Vec<usize> = if thorough { (0..=33).chain([63, 64, 65, 255, 4096]).collect() } else { vec![0, 1, 2, 3, 5, 8, 13, 33, 63, 64, 65] };
+    let ref_lens: Vec<usize> = if thorough { (0..=33).chain([63, 64, 65]).collect() } else { vec![0, 1, 2, 3, 5, 8, 13, 33, 63, 64, 65] };
     for t in TYPES {
         for &n in &ref_lens {
             for ql in 0..=16usize {
@@ -398,10 +398,11 @@ fn gen_cases(seed: u64, thorough: bool) -> Vec<String> {
                 }
             }
         }
-        // the 4-byte SIZE form
-        for &n in &[16383usize, 16384] {
-            let combos: Vec<(usize, usize)> = if thorough { (0..=16).flat_map(|q| (0..8).map(move |m| (q, m))).filter(|(q, m)| (q * 3 + m) % 4 == n % 4).collect() }
-                                              else { (0..3).map(|_| (rng.below(17) as usize, rng.below(8) as usize)).collect() };
+        // longer slices, and the 4-byte SIZE form, at sampled (query length, misalignment)
+        let long: &[usize] = if thorough { &[255, 256, 4096, 16383, 16384] } else { &[16383, 16384] };
+        for &n in long {
+            let k = if thorough { if n >= 16383 { 4 } else { 16 } } else { 3 };
+            let combos: Vec<(usize, usize)> = (0..k).map(|_| (rng.below(17) as usize, rng.below(8) as usize)).collect();
             for (ql, m) in combos {
                 cases.push(format!("k=ref t={t} xs={} ql={ql:x} m={m:x} src=a", gen_xs(&mut rng, t, n)));
             }
@@ -439,14 +440,15 @@ fn gen_cases(seed: u64, thorough: bool) -> Vec<String> {
         }
     }
     // live calls
-    let net_lens: Vec<usize> = if thorough { vec![0, 1, 2, 3, 7, 33, 63, 64, 65, 300, 4096, 16384, 50_000] } else { vec![0, 1, 2, 7, 64, 300] };
+    let net_lens: Vec<usize> = if thorough { vec![0, 1, 2, 3, 7, 33, 63, 64, 65, 300, 4096, 16384] } else { vec![0, 1, 2, 7, 64, 300] };
     let qls: Vec<usize> = if thorough { (4..=NET_QL_MAX).collect() } else { (4..=11).collect() };
     for t in TYPES {
         for (rk, ck) in [("s", "b"), ("s", "s"), ("s", "a"), ("r", "b"), ("r", "s"), ("r", "a"), ("t", "b"), ("t", "s")] {
             for &n in &net_lens {
                 if n >= 16384 && twidth(t) > 2 && !(rk == "r" && ck == "a") { continue; }
                 for &ql in &qls {
-                    if n > 300 && ql % 4 != 0 && !(rk == "r" && ck == "a") { continue; }
+                    // long slices: every route/client pair at two query lengths, the aligned pair at every residue modulo 8
+                    if n > 300 && !(ql == 5 || ql == 8 || (rk == "r" && ck == "a" && ql < 12 && n < 16384)) { continue; }
                     cases.push(format!("k=net rk={rk} ck={ck} t={t} xs={} ql={ql:x}", gen_xs(&mut rng, t, n)));
                 }
             }
